@@ -75,11 +75,12 @@ PfnPages == { <<If(c, <<Call("T1", <<Pos(<<Txt(<<"y">>)>>)>>)>>, <<Txt(<<"n">>)>
                    <<Link(<<<<Txt(<<"a">>)>>, <<Call("T1", <<Pos(<<Txt(<<"l">>)>>)>>), Call("T2", <<>>)>>>>)>>,
                    <<Ext(<<Call("Sp", <<>>), Inv("echo", <<Pos(<<Txt(<<"e">>)>>)>>)>>)>>,
                    <<Call("T1", <<Pos(<<Link(<<<<Txt(<<"b">>)>>, <<Call("A", <<>>)>>>>)>>)>>)>> }
-InvPages == { <<Inv(fn, <<Pos(v)>>)>> : fn \in {"echo", "err", "pre", "tpl", "pyx", "pcx"}, v \in {<<Txt(<<"a">>)>>, <<Call("T1", <<Pos(<<Txt(<<"i">>)>>)>>)>>} }
+InvPages == { <<Inv(fn, <<Pos(v)>>)>> : fn \in {"echo", "err", "pre", "tpl", "pyx", "pcx", "ext"}, v \in {<<Txt(<<"a">>)>>, <<Call("T1", <<Pos(<<Txt(<<"i">>)>>)>>)>>} }
             \cup { <<Call("T1", <<Pos(<<Inv("echo", <<Pos(<<Txt(<<"a">>)>>)>>)>>)>>)>>,
                    <<Inv("err", <<>>), Inv("echo", <<Pos(<<Txt(<<"b">>)>>)>>), Inv("err", <<>>)>>,
                    <<If(<<Inv("err", <<>>)>>, <<Inv("echo", <<Pos(<<Txt(<<"c">>)>>)>>)>>, <<>>)>>,
-                   <<Call("A", <<>>)>> }
+                   <<Call("A", <<>>)>>,
+                   <<Inv("ext", <<>>), Txt(<<"SP">>), Inv("ext", <<>>), Call("T1", <<Pos(<<Inv("ext", <<>>)>>)>>)>> }
 SiblingPages == { <<Call(a, <<Pos(<<Txt(<<"1">>)>>)>>), Txt(<<"SP">>), Call(b, <<Pos(<<Txt(<<"2">>)>>)>>)>> : a \in {"T1", "T2", "Sp"}, b \in {"T1", "T2", "Sp"} }
                 \cup { <<Call("T1", <<Pos(<<Call(a, <<>>), Call(b, <<Pos(<<Txt(<<"x">>)>>)>>)>>)>>)>> : a \in {"T2", "Sp"}, b \in {"T1", "T2"} }
 \* argument names that str.isdigit() accepts but that are not decimal numerals
@@ -92,6 +93,13 @@ CycPages == { <<Call("A", <<>>)>>, <<Call("A", <<Pos(<<Txt(<<"a">>)>>)>>)>>,
 \* templates whose includable part is empty (documentation-only pages), used flat, twice, and as an argument
 EmptyPages == { <<Call("E", <<>>)>>, <<Call("E", <<>>), Txt(<<"SP">>), Call("E", <<Pos(<<Txt(<<"a">>)>>)>>)>>,
                 <<Call("T1", <<Pos(<<Call("E", <<>>)>>)>>), Call("E", <<>>)>> }
+
+\* long flat pages: n calls side by side, none nested (a page of N flat calls is never "too deep"), followed
+\* by a selected template; with #invoke expansion disabled the Lua calls come back as written
+RECURSIVE Flat(_, _)
+Flat(n, item) == IF n = 0 THEN <<>> ELSE <<item>> \o Flat(n - 1, item)
+FlatPages == { Flat(n, it) \o <<Txt(<<"SP">>), Call("T1", <<Pos(<<Txt(<<"z">>)>>)>>)>> :
+                 n \in {99, 120}, it \in {Inv("echo", <<Pos(<<Txt(<<"a">>)>>)>>), Call("T2", <<>>), Call("NOPE", <<>>)} }
 
 LoopPages == { <<Inv("loop", <<>>), Inv("echo", <<Pos(<<Txt(<<"k">>)>>)>>)>>, <<Call("T1", <<Pos(<<Inv("loop", <<>>)>>)>>)>> }
 
@@ -117,6 +125,7 @@ OptsSel ==
 OptsSelQ == { o \in OptsSel : (o.hasExp \/ o.exp = {}) /\ (o.hasNot \/ o.nots = {}) /\ ~(o.tfn = "marker" /\ o.pfn = "replace") }
 OptsFullHooks == { Opt(FALSE, FALSE, {}, FALSE, {}, TRUE, TRUE, tf, po) : tf \in {"none", "observe", "marker"}, po \in {"none", "observe", "replace"} }
 Needs == { {}, {"T1"}, {"T2"}, {"Sp", "T1"} }
+OptsFlat == { Opt(TRUE, TRUE, {"T1"}, FALSE, {}, pf, iv, "observe", "none") : pf \in BOOLEAN, iv \in BOOLEAN }
 
 Cases ==
   CASE Universe = "C16" ->
@@ -133,11 +142,13 @@ Cases ==
     [] Universe = "C13" ->
          { [lib |-> l, need |-> nd, page |-> p, o |-> o, enw |-> e] :
              l \in AcyclicLibs, nd \in Needs, p \in CallPages \cup PfnPages \cup SiblingPages, o \in OptsSel \cup OptsFullHooks, e \in BOOLEAN }
+         \cup { [lib |-> LibBase, need |-> {}, page |-> p, o |-> o, enw |-> TRUE] : p \in FlatPages, o \in OptsFlat }
     [] Universe = "C13Q" ->
          { [lib |-> l, need |-> nd, page |-> p, o |-> o, enw |-> TRUE] :
              l \in {LibBase}, nd \in {{}, {"T2"}, {"Sp", "T1"}}, p \in CallPages \cup PfnPages, o \in OptsSelQ \cup OptsFullHooks }
          \cup { [lib |-> LibBase, need |-> nd, page |-> p, o |-> o, enw |-> e] :
                   nd \in {{"T2"}, {"Sp", "T1"}}, p \in SiblingPages, o \in OptsSelQ, e \in BOOLEAN }
+         \cup { [lib |-> LibBase, need |-> {}, page |-> p, o |-> o, enw |-> TRUE] : p \in FlatPages, o \in OptsFlat }
     [] Universe = "C05Q" ->
          { [lib |-> l, need |-> {}, page |-> p, o |-> OptAll, enw |-> TRUE] : l \in CyclicLibs, p \in CycPages }
          \cup { [lib |-> LibBase, need |-> {}, page |-> p, o |-> OptAll, enw |-> TRUE] : p \in DeepPagesQ \cup OddNamePages }
